@@ -99,6 +99,9 @@ def run(tier, replay):
     with cf.ThreadPoolExecutor(max_workers=nsh) as ex:
         for i, (rc, cnt, out) in enumerate(ex.map(shard, range(nsh))):
             nres += cnt
+            if rc == 124:
+                # the shard ran into the harness's own time limit: no statement about memory safety (bounded work is C04's)
+                raise vlib.InfraError("generation shard %d timed out under ASan (machine too loaded?)" % i)
             if rc != 0:
                 ck.violation(report_key(out), "sanitizer report / crash while generating (rc=%s): %s" % (rc, out[-1800:]),
                              {"jobs_done": cnt, "shard": jobs[i::nsh][:3]})
